@@ -33,7 +33,7 @@ def build(ctx):
 def run(ctx):
     bins = build(ctx)
     ctx.cov["rule"] = ("case = one bit pattern of one type in one build flavour; every pattern is enumerated once per flavour, so "
-                       "distinct = evaluations / 3 APIs; all classes are non-trivial (each has its own stratum).  float is exhaustive.")
+                       "distinct = number of distinct bit patterns (counted on one flavour); all classes are non-trivial (each has its own stratum).  float is exhaustive.")
     req = []
     for t in TYPES:
         for a in ("fpclassify", "isnan", "isfinite"):
@@ -49,8 +49,11 @@ def run(ctx):
                            "mismatches": sum(s["viol"] for s in summ.values())}
         ctx.require(per_flavour[fl]["float_patterns"] == 2 ** 32, "float enumeration incomplete in flavour %s" % fl)
     ctx.cov["flavours"] = per_flavour
-    ctx.cov["exhaustive"] = {"float": True, "double": False, "long double": False}
-    # the strata table counts one event per API: report distinct patterns, not API calls
-    ctx.cov["distinct_nontrivial"] = sum(v["patterns"] for v in per_flavour.values())
+    # `exhaustive` (boolean, whole space) is not claimed: only the float sub-space is enumerated completely
+    ctx.cov["exhaustive_subspaces"] = {"float: all 2^32 bit patterns, in every build flavour of this run": True,
+                                       "double": False, "long double": False}
+    # evaluations counts API calls (3 per pattern and flavour); distinct = distinct bit patterns (the same
+    # patterns are replayed in every flavour, so one flavour is counted)
+    ctx.cov["distinct_nontrivial"] = max(v["patterns"] for v in per_flavour.values())
     ctx.assumptions += ["x86-64, x87 80-bit long double, little endian (other long double formats are not exercised)",
                         "the property's 'as the platform C library does' is read on glibc's __fpclassifyl"]
